@@ -9,6 +9,7 @@
 package main
 
 import (
+	"bytes"
 	"encoding/json"
 	"flag"
 	"fmt"
@@ -17,6 +18,7 @@ import (
 	"sort"
 	"strconv"
 	"strings"
+	"sync"
 
 	"com.tuntun.rangers/node/src/consensus/groupsig"
 	"com.tuntun.rangers/node/src/consensus/logical"
@@ -102,6 +104,60 @@ func runCase(g *cryptoutil.Group, c tcase, idx int, reps int, counts map[string]
 			counts["superset"]++
 		}
 	}
+}
+
+// concurrentRecover: goroutines sign, combine and verify for different messages of one group at the same
+// time; each compares with the group signature it recovered alone beforehand.
+func concurrentRecover(g *cryptoutil.Group, workers, iterations int) {
+	k := model.Param.GetGroupK(g.N)
+	type job struct {
+		msg []byte
+		ref []byte
+	}
+	shares := func(msg []byte) map[string]groupsig.Signature {
+		m := map[string]groupsig.Signature{}
+		for j := 0; j < k; j++ {
+			m[g.IDs[j].GetHexString()] = groupsig.Sign(g.SignSK[j], msg)
+		}
+		return m
+	}
+	jobs := make([]job, workers)
+	for i := range jobs {
+		jobs[i].msg = make([]byte, 32+1000*(i%3))
+		copy(jobs[i].msg, cryptoutil.HashOf("c13-conc", i).Bytes())
+		sig, panicked := recoverDirect(shares(jobs[i].msg), k)
+		if panicked || sig == nil || !groupsig.VerifySig(g.GPK[0], jobs[i].msg, *sig) {
+			vutil.Fatalf("harness: sequential reference recovery is not valid")
+		}
+		jobs[i].ref = sig.Serialize()
+	}
+	mism, fail := make([]int, workers), make([]int, workers)
+	var wg sync.WaitGroup
+	for i := range jobs {
+		wg.Add(1)
+		go func(i int) {
+			defer wg.Done()
+			for it := 0; it < iterations; it++ {
+				sig, panicked := recoverDirect(shares(jobs[i].msg), k)
+				if panicked || sig == nil {
+					fail[i]++
+					continue
+				}
+				if !bytes.Equal(sig.Serialize(), jobs[i].ref) {
+					mism[i]++
+				}
+				if !groupsig.VerifySig(g.GPK[0], jobs[i].msg, *sig) {
+					fail[i]++
+				}
+			}
+		}(i)
+	}
+	wg.Wait()
+	mm, ff := 0, 0
+	for i := range jobs {
+		mm, ff = mm+mism[i], ff+fail[i]
+	}
+	emit("ConcurrentRecover", map[string]interface{}{"n": g.N, "goroutines": workers, "iterations": iterations, "mismatches": mm, "verifyFailures": ff})
 }
 
 func main() {
@@ -234,9 +290,13 @@ func main() {
 			runCase(g, c, idx, *reps, counts)
 			counts["cases"]++
 		}
+		if n <= 16 {
+			concurrentRecover(g, 8, 6)
+			counts["concurrent"]++
+		}
 	}
 	tr.Close()
-	fmt.Printf("c13: cases=%d dkg=%d deliver=%d dupDeliver=%d arrive=%d recovered=%d superset=%d below=%d k=%d big=%d events=%d\n",
+	fmt.Printf("c13: cases=%d dkg=%d deliver=%d dupDeliver=%d arrive=%d recovered=%d superset=%d below=%d k=%d big=%d concurrent=%d events=%d\n",
 		counts["cases"], counts["dkg"], counts["deliver"], counts["dupDeliver"], counts["arrive"], counts["recovered"],
-		counts["superset"], counts["below"], counts["k"], counts["big"], tr.N)
+		counts["superset"], counts["below"], counts["k"], counts["big"], counts["concurrent"], tr.N)
 }
